@@ -352,6 +352,14 @@ namespace sim
 				}
 
 				const int len = std::uint8_t(m_out_buffer[4]);
+				if (len < 3)
+				{
+					// the 10 bytes we already read extend past such a request;
+					// host names this short are not supported
+					std::printf("ERROR: unsupported host name length: %d\n", len);
+					close_connection();
+					return;
+				}
 				// we already read an address of length 4, assuming it was an IPv4
 				// address. Now, with a domain name, one of those bytes was the
 				// length-prefix, but we still read 3 bytes already.
